@@ -41,7 +41,7 @@ B == 1..NBuilders
 
 StepsDom == {0, 3, 10}
 InnerDom == {0, 2, 1000}
-KtStartDom == {"zero", "warm", "hot"}
+KtStartDom == {"zero", "warm", "hot", "tinyk"}   \* tinyk: positive, far below machine epsilon
 KtFinishDom == {"fzero", "cold", "hotter"}      \* the setter always stores Some(value)
 RatioDom == {None, "r0", "rhalf", "rbig", "rneg"}   \* kt_ratio(None) is a legal call; rneg heats
 MaxStepDom == {"tiny", "unit"}
